@@ -228,7 +228,7 @@ pub fn run(tier: Tier) -> i32 {
             }
         }
         for prop in PROPS {
-            for len in [16383usize, 16384, 16385, 65535, 65536, 70001, 200000] {
+            for len in [16383usize, 16384, 16385, 65535, 65536, 70001, 200000, (1 << 20) - 1, 1 << 20, (1 << 20) + 1, 3 << 20] {
                 let t: String = std::iter::repeat(ch).take(len).collect();
                 cases.push(Case { cp, prop, text: t, class: "long".into() });
             }
@@ -249,7 +249,7 @@ pub fn run(tier: Tier) -> i32 {
     rep.add("states", cases.len() as i64);
     rep.add("transitions", cases.len() as i64);
     rep.add("traces_validated_against_impl", cases.len() as i64);
-    rep.set("rule", "E1: all sequences over setters/clearers of the ten properties and code-page switches (incl. back to UTF-8) up to the completed depth, every state saved 3 ways, strict-parsed and reopened; E2: 26 code pages x 6 string properties (placed first/middle/last in the set by their ids) x strings of length 0..9 from every (UTF-8 length, encoded length | unmappable) character class of the page, pure and alternating with ASCII, so every residue of both lengths modulo 4 occurs; every length 10..8300 (and 16 Ki +-1, 64 Ki +-1, 70001, 200000) for ASCII and a 2-byte/1-byte character under 1252 and UTF-8. distinct_nontrivial = E1 states");
+    rep.set("rule", "E1: all sequences over setters/clearers of the ten properties and code-page switches (incl. back to UTF-8) up to the completed depth, every state saved 3 ways, strict-parsed and reopened; E2: 26 code pages x 6 string properties (placed first/middle/last in the set by their ids) x strings of length 0..9 from every (UTF-8 length, encoded length | unmappable) character class of the page, pure and alternating with ASCII, so every residue of both lengths modulo 4 occurs; every length 10..8300 (and 16 Ki +-1, 64 Ki +-1, 70001, 200000, 1 Mi +-1, 3 Mi) for ASCII and a 2-byte/1-byte character under 1252 and UTF-8. distinct_nontrivial = E1 states");
     rep.sample(json!({"cp": cases[37].cp, "prop": format!("{:?}", cases[37].prop), "text": cases[37].text}));
     rep.finish()
 }
